@@ -86,7 +86,8 @@ const c01N = 3 // three validators of power 1: more than 2/3 means all three
 
 // c01State: round r, an arbitrary lock, an arbitrary proposal block, and arbitrary prevotes of round r
 // (each validator: none / nil / block 1 / block 2) added through the real AddVote.
-func c01State(round int) (*ConsensusState, [3]int) {
+// c01BareState: height 5, the given round, three validators, no votes, no lock, no proposal
+func c01BareState(round int) (*ConsensusState, []*types.Validator) {
 	vals := make([]*types.Validator, c01N)
 	for i := range vals {
 		pk := crypto.PubKeyEd25519{byte(i + 1), 0x55}
@@ -113,6 +114,12 @@ func c01State(round int) (*ConsensusState, [3]int) {
 		cs.evsw = tmevents.NewEventSwitch()
 		cs.wal = nilWAL{}
 	}
+	c01Votes = nil
+	return cs, vals
+}
+
+func c01State(round int) (*ConsensusState, [3]int) {
+	cs, vals := c01BareState(round)
 	var tally [3]int // prevotes of this round for nil, block 1, block 2
 	for i := 0; i < c01N; i++ {
 		c := verifCase(4)
@@ -207,4 +214,57 @@ func H_C01_precommit_only_after_two_thirds_prevotes() {
 		// a polka for a block the validator does not have: it must not stay locked on another block
 		verifAssert(cs.LockedBlock == nil, "polka-for-another-block-unlocks")
 	}
+}
+
+var c01Entered int
+
+func stub_c01_enter2(cs *ConsensusState, height uint64, round int) { c01Entered++ }
+
+func c01Prevote(vals []*types.Validator, i int, round int, id byte) *types.Vote {
+	return &types.Vote{ValidatorAddress: vals[i].Address, ValidatorIndex: i, ValidatorSize: c01N, Height: 5, Round: round,
+		Type: types.VoteTypePrevote, BlockID: c01ID(id), Signature: crypto.SignatureEd25519{byte(i)}}
+}
+
+// The lock rule of addVote: a validator locked on B in round L gives the lock up only when it sees more
+// than 2/3 prevotes, in a round vr with L < vr <= its current round, for something other than B - and
+// then it does give it up. Prevotes of older rounds, of rounds ahead of the node, partial tallies and
+// polkas for B itself leave the lock alone. (The step transitions addVote triggers are recording
+// stubs: what they do is the subject of the other two harnesses.)
+//
+//verif:stub (*github.com/lianxiangcloud/linkchain/consensus.ConsensusState).enterNewRound => stub_c01_enter2
+//verif:stub (*github.com/lianxiangcloud/linkchain/consensus.ConsensusState).enterPrevote => stub_c01_enter2
+//verif:stub (*github.com/lianxiangcloud/linkchain/consensus.ConsensusState).enterPrevoteWait => stub_c01_enter2
+//verif:stub (*github.com/lianxiangcloud/linkchain/consensus.ConsensusState).enterPrecommit => stub_c01_enter2
+//verif:opt unwind=16 budget_s=900 split=12
+func H_C01_lock_released_only_by_a_later_polka_for_something_else() {
+	const R = 2 // the node is in round 2; rounds 0..3 are tracked
+	cs, vals := c01BareState(R)
+	L := verifCase(3) // the round it locked in: 0, 1 or 2
+	cs.LockedBlock, cs.LockedRound = c01Block(1), L
+	cs.LockedBlockParts = types.NewPartSetFromHeader(c01ID(1).PartsHeader)
+	if verifNondetBool() {
+		cs.ProposalBlock = c01Block(2)
+		cs.ProposalBlockParts = types.NewPartSetFromHeader(c01ID(2).PartsHeader)
+	}
+	vr := verifCase(4)       // round of the arriving prevote: 0..3 (3 is ahead of the node)
+	id := byte(verifCase(3)) // what the earlier prevotes of that round are for: nil, B (=1), another block (=2)
+	have := verifCase(3)     // how many of them are already in
+	for i := 0; i < have; i++ {
+		added, err := cs.Votes.AddVote(c01Prevote(vals, i, vr, id), "peer")
+		if !added || err != nil {
+			panic("model: prevote not added")
+		}
+	}
+	id2 := byte(verifCase(3)) // the arriving prevote (from the last validator)
+	added, err := cs.addVote(c01Prevote(vals, c01N-1, vr, id2), "peer")
+	verifAssert(added && err == nil, "prevote-added")
+	polka := have == c01N-1 && id2 == id
+	if cs.LockedBlock == nil {
+		verifAssert(polka && id != 1 && L < vr && vr <= R, "lock-released-only-by-a-later-polka-for-something-else")
+		verifAssert(cs.LockedBlockParts == nil, "released-lock-forgets-its-parts")
+	} else {
+		verifAssert(byte(cs.LockedBlock.NumTxs) == 1 && cs.LockedRound == L, "lock-otherwise-untouched")
+		verifAssert(!(polka && id != 1 && L < vr && vr <= R), "later-polka-for-something-else-releases-the-lock")
+	}
+	verifReach("vote-handled")
 }
